@@ -98,6 +98,8 @@ type c08Input struct {
 
 type c08NodeImpl struct {
 	Err  string `json:"err,omitempty"`
+	// EvalErr: the instance evaluated Outcome / Reports on the round's inputs after its observation and that failed
+	EvalErr string `json:"evalErr,omitempty"`
 	Obs  *JObs  `json:"obs"`
 	Len  int    `json:"len"`
 	Base int    `json:"base"`
@@ -658,7 +660,7 @@ func c08RunWorld(t *testing.T, rc c08Recipe, em *Emitter) []c08Shot {
 // c08TakeShot calls Observation(seq, prev) on both instances and builds the case line: what the harness says each node
 // holds (nodeX, indices into pool) and what each instance returned.  `before[i]`, if set, runs right before instance i's call.
 func c08TakeShot(digest [32]byte, F int, seq uint64, pool []ocr2keepers.CheckResult, lens []int, nodeX [2]c08NodeX,
-	prev *ocr2keepersv3.AutomationOutcome, nodes [2]*Node, info map[string]int, before func(i int)) c08Shot {
+	prev *ocr2keepersv3.AutomationOutcome, nodes [2]*Node, info map[string]int, before func(i int), evals ...bool) c08Shot {
 	var prevBytes []byte
 	var jprev *JOutcome
 	if prev != nil {
@@ -745,8 +747,50 @@ func c08TakeShot(digest [32]byte, F int, seq uint64, pool []ocr2keepers.CheckRes
 		}
 		sh.Impl.Nodes = append(sh.Impl.Nodes, ni)
 	}
+	if len(evals) > 0 && evals[0] {
+		for i, e := range c08Evaluate(nodes, seq, prevBytes, sh.Raw) {
+			sh.Impl.Nodes[i].EvalErr = e
+		}
+	}
 	sh.X = x
 	return sh
+}
+
+// c08Evaluate: what libocr runs on every node besides Observation — Outcome on the round's attributed observations (twice:
+// a node may evaluate it again at any time) and Reports on the previous round's outcome — on the SAME instances and the same
+// previous-outcome bytes the observations were built from.  Nothing of it may show in a later observation: the results are
+// dropped, the next shots are compared with the model as before.
+func c08Evaluate(nodes [2]*Node, seq uint64, prevBytes []byte, raws [2][]byte) (errs [2]string) {
+	ctx := context.Background()
+	outctx := ocr3types.OutcomeContext{SeqNr: seq, PreviousOutcome: prevBytes}
+	var aos []ocr2plustypes.AttributedObservation
+	for i, raw := range raws {
+		if raw != nil {
+			aos = append(aos, ocr2plustypes.AttributedObservation{Observation: raw, Observer: commontypes.OracleID(i)})
+		}
+	}
+	for i, n := range nodes {
+		var first []byte
+		for k := 0; k < 2; k++ {
+			out, err := n.Plugin.Outcome(ctx, outctx, nil, aos)
+			if err != nil {
+				errs[i] = fmt.Sprintf("Outcome on the two instances' own observations: %v", err)
+				break
+			}
+			if k == 0 {
+				first = out
+			} else if string(first) != string(out) {
+				errs[i] = "Outcome evaluated twice on one instance and the same inputs gave different bytes"
+			}
+		}
+		if prevBytes != nil {
+			if _, err := n.Plugin.Reports(ctx, seq, prevBytes); err != nil && errs[i] == "" {
+				errs[i] = fmt.Sprintf("Reports on the previous outcome (which Observation accepted): %v", err)
+			}
+			n.Enc.Take()
+		}
+	}
+	return errs
 }
 
 var uint256MaxBig, _ = new(big.Int).SetString("115792089237316195423570985008687907853269984665640564039457584007913129639935", 10)
@@ -980,5 +1024,10 @@ func TestC08(t *testing.T) {
 	ns := tierN(40, 800)
 	for i := 0; i < ns; i++ {
 		c08RunAndEmitScript(t, em, "gen", c08ScriptGen(rs, i))
+	}
+	// re-checks replacing staged results between the observations of one window, at the byte limit
+	rr := NewRng(seed() + 8700)
+	for i, nr := 0, tierN(6, 120); i < nr; i++ {
+		c08RunAndEmitScript(t, em, "gen", c08RecheckScript(rr, rr.U64(), i))
 	}
 }
